@@ -667,6 +667,9 @@ func c02ScGauge(c *c02Ctx, e *c02Env, do c02Doer, rt *c02Route, n, clients, reqs
 // run; <= limit (or undeclared) ⇒ the handler's response.
 func c02ScMaxBytes(c *c02Ctx, e *c02Env, do c02Doer, rt *c02Route, length int, chunked bool, r *rand.Rand) bool {
 	class := "maxbytes"
+	if rt.Method != http.MethodPost {
+		class += "-" + rt.Method
+	}
 	sc := c02GenFast(r, false)
 	run := e.newRun(rt, sc)
 	defer e.forget(run)
@@ -695,7 +698,7 @@ func c02ScMaxBytes(c *c02Ctx, e *c02Env, do c02Doer, rt *c02Route, length int, c
 			return false
 		}
 	}
-	c.m.Case(fmt.Sprintf("%s|maxbytes|delta=%d|chunked=%v", c.obs, c02Clamp(int64(length)-rt.MaxBytes), chunked), true)
+	c.m.Case(fmt.Sprintf("%s|%s|delta=%d|chunked=%v", c.obs, class, c02Clamp(int64(length)-rt.MaxBytes), chunked), true)
 	if over && int64(length) == rt.MaxBytes+1 {
 		c.sampleOnce(class, map[string]any{"route": rt.Path, "max_bytes": rt.MaxBytes, "content_length": length, "client_saw": resp.String(), "handler_entered": run.entered()})
 	}
